@@ -6,6 +6,7 @@ import (
 	"io"
 	"net"
 	"sync"
+	"time"
 )
 
 type Pub struct {
@@ -18,6 +19,33 @@ type Broker struct {
 	ln   net.Listener
 	Pubs []Pub
 	subs map[string][]net.Conn
+	conn map[net.Conn]bool
+	ids  map[net.Conn]string // MQTT client id of each connection ("" = the server's publisher, which sets none)
+	down time.Time           // connections of named clients are refused until then
+}
+
+// Outage drops every connection and refuses new ones for d (the broker is restarting)
+func (b *Broker) Outage(d time.Duration) {
+	b.mu.Lock()
+	b.down = time.Now().Add(d)
+	b.mu.Unlock()
+	b.KickAll()
+}
+
+// KickAll closes the connection of every named client (a broker hiccup); clients may reconnect.  The connection
+// without a client id is the server's publisher and stays.
+func (b *Broker) KickAll() {
+	b.mu.Lock()
+	cs := make([]net.Conn, 0, len(b.conn))
+	for c := range b.conn {
+		if b.ids[c] != "" {
+			cs = append(cs, c)
+		}
+	}
+	b.mu.Unlock()
+	for _, c := range cs {
+		c.Close()
+	}
 }
 
 func New() (*Broker, error) {
@@ -25,7 +53,7 @@ func New() (*Broker, error) {
 	if err != nil {
 		return nil, err
 	}
-	b := &Broker{ln: ln, subs: map[string][]net.Conn{}}
+	b := &Broker{ln: ln, subs: map[string][]net.Conn{}, conn: map[net.Conn]bool{}, ids: map[net.Conn]string{}}
 	go func() {
 		for {
 			c, err := ln.Accept()
@@ -84,7 +112,25 @@ func encLen(n int) []byte {
 }
 
 func (b *Broker) serve(c net.Conn) {
-	defer c.Close()
+	b.mu.Lock()
+	b.conn[c] = true
+	b.mu.Unlock()
+	defer func() {
+		b.mu.Lock()
+		delete(b.conn, c)
+		delete(b.ids, c)
+		for t, l := range b.subs {
+			var keep []net.Conn
+			for _, x := range l {
+				if x != c {
+					keep = append(keep, x)
+				}
+			}
+			b.subs[t] = keep
+		}
+		b.mu.Unlock()
+		c.Close()
+	}()
 	r := bufio.NewReader(c)
 	for {
 		h, err := r.ReadByte()
@@ -101,6 +147,25 @@ func (b *Broker) serve(c net.Conn) {
 		}
 		switch h >> 4 {
 		case 1:
+			// CONNECT: protocol name, level, flags, keep-alive, client id
+			id := ""
+			if len(body) >= 2 {
+				pl := int(body[0])<<8 | int(body[1])
+				off := 2 + pl + 1 + 1 + 2
+				if len(body) >= off+2 {
+					il := int(body[off])<<8 | int(body[off+1])
+					if len(body) >= off+2+il {
+						id = string(body[off+2 : off+2+il])
+					}
+				}
+			}
+			b.mu.Lock()
+			b.ids[c] = id
+			refuse := id != "" && time.Now().Before(b.down)
+			b.mu.Unlock()
+			if refuse {
+				return
+			}
 			c.Write([]byte{0x20, 0x02, 0x00, 0x00})
 		case 3:
 			tl := int(body[0])<<8 | int(body[1])
